@@ -251,7 +251,10 @@ def run_exec(root: str, spec: dict[str, Any], roles: dict[str, str], knobs: dict
         out["kind"] = "exit"
         code = exc.code
         out["ret"] = code if isinstance(code, (int, type(None))) else str(code)
-        out["ok"] = code is None or code == 0
+        # what the parent process sees: the operating system keeps the low 8 bits of an integer status
+        # (sys.exit(-256) and sys.exit(256) both end the process with status 0); any other object is status 1
+        out["status"] = 0 if code is None else ((code & 0xFF) if isinstance(code, int) else 1)
+        out["ok"] = out["status"] == 0
     elif exc is not None:
         out["kind"] = "raised"
         out["exc"] = describe_exc(exc)
